@@ -63,7 +63,8 @@ func genC05(r *simrt.Rand, tier string, idx int) *hx.Program {
 		case k < 82:
 			p.Ops = append(p.Ops, hx.Op{K: "hw", A: []int64{int64(r.Intn(1001))}})
 		case k < 92:
-			p.Ops = append(p.Ops, hx.Op{K: "clean"})
+			// in a third of the cleans an appender runs concurrently (new leader epochs, rolls), as in a live partition
+			p.Ops = append(p.Ops, hx.Op{K: "clean", A: []int64{int64([]int{0, 0, 1 + r.Intn(3)}[r.Intn(3)]), int64(r.Uint64() >> 1)}})
 		default:
 			p.Ops = append(p.Ops, hx.Op{K: "sleep", A: []int64{int64(1 + r.Intn(12000))}})
 		}
@@ -167,6 +168,7 @@ type c05 struct {
 	fsPerOp      []int
 	fsNamesPerOp [][]string
 	recCrashes   int
+	concCleans   int
 	crashes      int
 	recovers     int
 	maxSegs      int
@@ -540,7 +542,53 @@ func (c *c05) exec(t *testing.T, prog *hx.Program, dec *simrt.Decider, verbose b
 						required = append(required, r)
 					}
 				}
+				appDone := true
+				if conc := int(op.Arg(0, 0)); conc > 0 {
+					appDone = false
+					if h.opts.MaxLogMessages > 0 || h.opts.MaxLogBytes > 0 {
+						// the appender may roll: what was the newest segment when the operation began is then an
+						// older one by the time the clean looks, and retention may take it
+						required = nil
+					}
+					ar := simrt.NewRand(uint64(op.Arg(1, 1)))
+					c.concCleans++
+					h.s.GoNode(h.node, "conc-appender", func() {
+						defer func() { appDone = true }()
+						for k := 0; k < conc && !h.stop; k++ {
+							if ar.Pct(40) {
+								ne := h.epoch + uint64(1+ar.Intn(2))
+								if h.log.NewLeaderEpoch(ne) != nil {
+									return
+								}
+								h.epoch = ne
+							}
+							n := 1 + ar.Intn(3)
+							now := time.Now().UnixNano()
+							var recs []*rec
+							msgs := make([]*Message, n)
+							for j := 0; j < n; j++ {
+								rc := genRec(ar, seg)
+								rc.off, rc.ts, rc.epoch = h.next+int64(j), now+int64(j), h.epoch
+								recs = append(recs, rc)
+								msgs[j] = &Message{MagicByte: 2, Key: rc.key, Value: rc.val, Headers: rc.hdr, Timestamp: rc.ts, LeaderEpoch: rc.epoch}
+							}
+							allowed = append(allowed, recs...)
+							h.next += int64(n) // (offsets are handed out under the log's lock: the next batch comes after this one)
+							if _, err := h.log.Append(msgs); err != nil {
+								return
+							}
+							if h.opts.MaxLogMessages == 0 && h.opts.MaxLogBytes == 0 {
+								// the append completed; compaction keeps what lies above the high watermark (with a
+								// retention limit the same clean may legitimately remove what was appended during it)
+								required = append(required, recs...)
+							}
+						}
+					})
+				}
 				crashed = h.do("clean", func() { opErr = h.log.Clean() })
+				if !crashed && !h.s.Crashed(h.node) {
+					simrt.WaitUntil("appender-done", func() bool { return appDone || h.s.Crashed(h.node) })
+				}
 			case "sleep":
 				d := time.Duration(op.Arg(0, 1)) * time.Millisecond
 				if cleaning && h.opts.CleanerInterval < 300*time.Second {
@@ -647,7 +695,9 @@ func (c *c05) exec(t *testing.T, prog *hx.Program, dec *simrt.Decider, verbose b
 			if exact {
 				c.exactCheck(int64(i))
 			} else {
-				c.reconcile("C05/clean", required, allowed, h.next)
+				if c.reconcile("C05/clean", required, allowed, h.next) {
+					c.h1.epochCheck("C05/clean", true)
+				}
 				if n := len(h.log.segments); n > c.maxSegs {
 					c.maxSegs = n
 				}
@@ -663,6 +713,7 @@ func (c *c05) exec(t *testing.T, prog *hx.Program, dec *simrt.Decider, verbose b
 			oc.Counters = map[string]int{}
 		}
 		oc.Counters["probe.max_segments"] = c.maxSegs
+		oc.Counters["probe.cleans_with_concurrent_appender"] = c.concCleans
 		oc.Counters["fault.fs_crash"] = c.crashes
 		oc.Counters["fault.fs_crash_inside_recovery"] = c.recCrashes
 		oc.Counters["probe.recoveries_judged"] = c.recovers
